@@ -10,8 +10,12 @@ import (
 
 func mkDcache(dip *inode.Inode, op *fstxn.FsTxn) {
 	dip.Dcache = dcache.MkDcache()
-	Apply(dip, op, 0, dip.Size, 100000000,
-		func(ip *inode.Inode, name string, inum common.Inum, off uint64) {
+	// Only names, inode numbers and offsets are needed: scan the entries
+	// without locking the inodes they name (locking "..", or a child with a
+	// smaller inode number, while holding dip violates the lock order and
+	// deadlocks against a lookup coming from the parent).
+	ApplyEnts(dip, op, 0, 100000000,
+		func(name string, inum common.Inum, off uint64) {
 			dip.Dcache.Add(name, inum, off)
 		})
 }
